@@ -21,8 +21,17 @@ def set_centre(i):
     T0S[0] = [1000., 167000000.][i]
 
 
-def reg_text():
-    return '# Region file format: DS9 version 4.1\nfk5\ncircle(%.6f,%.6f,55.0")\n' % (RA0 + 0.004, DEC0 - 0.003)
+NREG = [1]
+
+
+def reg_circles(n=None):
+    """(ra, dec, radius in arcsec) of the regions of a file: the selection is their union. The main flow uses the first circle (the BACKSCAL
+    estimate of the package costs seconds per region); `three_regions` uses all three"""
+    return [(RA0 + 0.004, DEC0 - 0.003, 55.), (RA0 - 0.012, DEC0 + 0.006, 30.), (RA0 + 0.002, DEC0 + 0.015, 25.)][:(n or NREG[0])]
+
+
+def reg_text(n=None):
+    return '# Region file format: DS9 version 4.1\nfk5\n' + ''.join('circle(%.6f,%.6f,%.1f")\n' % c for c in reg_circles(n))
 
 
 class Abort(Exception):
@@ -53,6 +62,8 @@ def build_file(g, d, n=160):
                             tstart=T0, tstop=T0 + 1024., ra0=RA0, dec0=DEC0)
     # PHASE column as xpphase writes it (format E)
     phase = (g.integers(0, 2 ** 10, n) / 2 ** 10).astype(numpy.float32)
+    # a double-precision phase within 3e-8 of a full turn is stored as exactly 1.0 in the single-precision column: two such rows
+    phase[[int(g.integers(0, n)), int(g.integers(0, n))]] = numpy.float32(1.0)
     with fits.open(path) as h:
         cols = h['EVENTS'].data.columns + fits.ColDefs([fits.Column(name='PHASE', array=phase, format='E')])
         h['EVENTS'] = fits.BinTableHDU.from_columns(cols, header=h['EVENTS'].header)
@@ -340,11 +351,13 @@ def ref_mask(rows, kw):
             m &= x >= kw['innerrad']
             care &= (numpy.abs(x - kw['innerrad']) > eps) | (kw['innerrad'] == 0.)
     if kw.get('regfile'):
-        # the region of the synthetic file is a 55" circle: membership computed independently from the (measured or true) sky position;
+        # the regions of the synthetic file are three circles (their union is selected): membership computed independently from the (measured or true) sky position;
         # rows within 0.6" of the edge are "don't care" (the regions library works in pixel space)
-        x = haversine_arcmin(rows['mra'] if kw.get('mc') else rows['ra'], rows['mdec'] if kw.get('mc') else rows['dec'], RA0 + 0.004, DEC0 - 0.003)
-        r = x <= 55. / 60.
-        care &= numpy.abs(x - 55. / 60.) > 0.01
+        r = numpy.zeros(len(m), dtype=bool)
+        for (cra, cdec, crad) in reg_circles():
+            x = haversine_arcmin(rows['mra'] if kw.get('mc') else rows['ra'], rows['mdec'] if kw.get('mc') else rows['dec'], cra, cdec)
+            r |= x <= crad / 60.
+            care &= numpy.abs(x - crad / 60.) > 0.01
         m &= ~r if kw.get('reginvert') else r
     for sid in kw.get('mcsrcid', []):
         m &= rows['src'] == sid
@@ -412,6 +425,32 @@ def mask_correspondence(chk, g, path, rows, n):
                 kind, lo, hi, inv, len(k), float((rows['time'] if kind == 'time' else rows['phase'])[k[0]])), dict(op='gmask', kind=kind, lo=lo, hi=hi, invert=inv))
 
 
+_THREE_DONE = [False]
+
+
+def three_regions(chk, g, path, rows, d):
+    """a region file listing three regions: the selection is their union (and its complement with --reginvert)"""
+    reg3 = os.path.join(d, 'three.reg')
+    open(reg3, 'w').write(reg_text(3))
+    NREG[0] = 3
+    try:
+        for kw in (dict(regfile='REG'), dict(regfile='REG', reginvert=True, mc=bool(g.integers(0, 2)))):
+            res = impl_select(path, reg3, kw, 'three%d' % len(kw))
+            m, care = ref_mask(rows, kw)
+            kept = len(res[1]) if res[0] == 'ok' else -1
+            chk.case(dict(op='select', kwargs=kw, regions=3, kept=kept, of=len(rows['time'])), nontrivial=0 < kept < len(rows['time']))
+            if res[0] != 'ok':
+                chk.fail('impl', 'xpselect with a three-region file failed: %s' % (res,), dict(oracle='predicate-three-regions', kwargs=kw, centre=[RA0, DEC0]))
+                continue
+            kept_set = set(res[1])
+            wrong = [int(t) for t, mm, cc in zip(rows['tag'], m, care) if cc and ((int(t) in kept_set) != bool(mm))]
+            if wrong or res[1] != res[2]:
+                chk.fail('impl', 'xpselect %s with a region file of three circles: rows with tags %s are kept/dropped although they are %s the union of the regions (kept %d rows, expected %d)' % (
+                    kw, wrong[:8], 'outside/inside', len(res[1]), int(m.sum())), dict(oracle='predicate-three-regions', kwargs=kw, centre=[RA0, DEC0], wrong_tags=wrong[:50]))
+    finally:
+        NREG[0] = 1
+
+
 def run_cases(chk, n, tagname, budget=1):
     g = rng(tagname)
     for centre in (0, 1):
@@ -430,6 +469,9 @@ def _run_cases(chk, g, n):
         path, reg = build_file(g, d)
         rows = read_rows(path, reg)
         mask_correspondence(chk, g, path, rows, 20 if chk.tier == 'quick' else 200)
+        if not _THREE_DONE[0] or chk.tier != 'quick':
+            _THREE_DONE[0] = True
+            three_regions(chk, g, path, rows, d)
         drv = Driver()
         jobs = []
         for kw in boundary_cfgs(g, rows) + [gen_cfg(g, rows, malformed=(i % 7 == 6)) for i in range(n)]:
